@@ -11,8 +11,8 @@ D = decimal.Decimal
 CASES = {'quick': 4000, 'thorough': 120000}
 GATES = {
     'quick': {'evaluations': 12000, 'parsed_values': 6000, 'applications': 5000, 'attached_operand_applications': 600,
-              'forms_seen': 9, 'chains_ge3': 400, 'results_needing_parens': 300},
-    'thorough': {'evaluations': 400000, 'forms_seen': 9},
+              'forms_seen': 10, 'chains_ge3': 400, 'results_needing_parens': 300},
+    'thorough': {'evaluations': 400000, 'forms_seen': 10},
 }
 RULE = ('case = two random expression texts (depth <=4, arbitrary spacing, redundant parentheses, thousands separators) parsed as '
         'NumberExpr, then a chain of 1..6 operator applications mixing plain / reflected (int, Decimal on the left) / in-place / unary '
@@ -162,7 +162,7 @@ def run_case(col, r, idx):
     nsteps = r.randint(1, 6)
     for step in range(nsteps):
         o = r.choice('+-*/')
-        form = r.choice(['plain', 'plain', 'plain', 'rint', 'rdec', 'int', 'dec', 'inplace', 'inplace_num', 'neg', 'pos'])
+        form = r.choice(['plain', 'plain', 'plain', 'rint', 'rdec', 'int', 'dec', 'inplace', 'inplace_num', 'neg', 'pos', 'self'])
         ti = r.randrange(3)
         other = None
         try:
@@ -188,6 +188,11 @@ def run_case(col, r, idx):
                 exp = OPS[o](acc.value, other.value)
             elif form == 'neg':
                 exp = -acc.value
+            elif form == 'self':
+                # the same expression object on both sides: e + e, e * e, ...
+                if o == '/' and acc.value == 0:
+                    continue
+                exp = OPS[o](acc.value, acc.value)
             else:
                 exp = +acc.value
         except ARITH_EXC:
@@ -211,6 +216,8 @@ def run_case(col, r, idx):
                 res = IOPS[o](acc.expr, c)
             elif form == 'neg':
                 res = -acc.expr
+            elif form == 'self':
+                res = OPS[o](acc.expr, acc.expr)
             else:
                 res = +acc.expr
         except Exception as ex:
